@@ -71,10 +71,16 @@ POOLSETS: dict[str, dict[str, list]] = {
     },
 }
 
+SEPY = "):y=<class 'str'>("
+for _ps in POOLSETS.values():
+    _ps["sepx"] = ["1", "1" + SEPY + "2", "q"]
+    _ps["sepy"] = ["3", "2" + SEPY + "3", "q"]
+
 # variants: (pool set, pool, atom) -> second concrete representative of the same abstract value
 VARIANTS: dict[tuple[str, str, int], object] = {}
 
 POOLSETS["sets"] = {
+    "sepx": ["a", "b", "c"], "sepy": ["a", "b", "c"],
     "str": ["x", "y", "z"],
     "int": [0, 1, 2],
     "optstr": [None, "c", "d"],
